@@ -97,8 +97,9 @@ func (pt *InPort) Ready() bool {
 // Send sends IPs to the in-port, and is supposed to be called from the remote
 // (out-) port, to send to this in-port
 func (pt *InPort) Send(ip *FileIP) {
-	verifPoint("port.send", pt.name, ip.Path())
+	verifPoint("port.send", verifPortName(pt.process, pt.name), ip.Path())
 	pt.Chan <- ip
+	verifPoint("port.sent", verifPortName(pt.process, pt.name), ip.Path())
 }
 
 // Recv receives IPs from the port
@@ -110,7 +111,7 @@ func (pt *InPort) Recv() *FileIP {
 // rptName, on the InPort
 func (pt *InPort) CloseConnection(rptName string) {
 	pt.closeLock.Lock()
-	verifPoint("port.close_connection", pt.name, rptName)
+	verifPoint("port.close_connection", verifPortName(pt.process, pt.name), rptName)
 	delete(pt.RemotePorts, rptName)
 	if len(pt.RemotePorts) == 0 {
 		close(pt.Chan)
@@ -344,7 +345,9 @@ func (pip *InParamPort) Ready() bool {
 // Send sends IPs to the in-port, and is supposed to be called from the remote
 // (out-) port, to send to this in-port
 func (pip *InParamPort) Send(param string) {
+	verifPoint("pport.send", verifPortName(pip.process, pip.name), param)
 	pip.Chan <- param
+	verifPoint("pport.sent", verifPortName(pip.process, pip.name), param)
 }
 
 // Recv receiveds a param value over the ports connection
@@ -356,6 +359,7 @@ func (pip *InParamPort) Recv() string {
 // popName, on the InParamPort
 func (pip *InParamPort) CloseConnection(popName string) {
 	pip.closeLock.Lock()
+	verifPoint("pport.close_connection", verifPortName(pip.process, pip.name), popName)
 	delete(pip.RemotePorts, popName)
 	if len(pip.RemotePorts) == 0 {
 		close(pip.Chan)
